@@ -22,8 +22,9 @@ func (b c01Base) id() string {
 }
 
 // The flights of a libp2p TLS 1.3 handshake (mutual authentication, no session tickets), one record each:
-//   client -> server: ClientHello | ChangeCipherSpec, {Certificate}, {CertificateVerify}, {Finished}
-//   server -> client: ServerHello, ChangeCipherSpec, {EncryptedExtensions}, {CertificateRequest}, {Certificate}, {CertificateVerify}, {Finished}
+//
+//	client -> server: ClientHello | ChangeCipherSpec, {Certificate}, {CertificateVerify}, {Finished}
+//	server -> client: ServerHello, ChangeCipherSpec, {EncryptedExtensions}, {CertificateRequest}, {Certificate}, {CertificateVerify}, {Finished}
 var (
 	c01FlightTypes = [2][]byte{{22, 20, 23, 23, 23}, {22, 20, 23, 23, 23, 23, 23}}
 	c01RecNames    = [2][]string{{"ClientHello", "client CCS", "client {Certificate}", "client {CertificateVerify}", "client {Finished}"},
@@ -183,8 +184,8 @@ func TestVerifC01TLSMatrix(t *testing.T) {
 // ---------- wire edits ----------
 
 func c01WireBases() []c01Base {
-	std := [2]c01Cfg{{"T", "match"}, {"T", "empty"}}     // TCP path: the listener does not know who dials
-	both := [2]c01Cfg{{"T", "match"}, {"T", "match"}}    // both sides name the other
+	std := [2]c01Cfg{{"T", "match"}, {"T", "empty"}}      // TCP path: the listener does not know who dials
+	both := [2]c01Cfg{{"T", "match"}, {"T", "match"}}     // both sides name the other
 	quic := [2]c01Cfg{{"CFP", "match"}, {"CFP", "empty"}} // QUIC-style use of ConfigForPeer
 	kt := c01wire.KeyTypes
 	var out []c01Base
@@ -205,6 +206,15 @@ func c01WireBases() []c01Base {
 	add(kt[1], kt[3], both) // ecdsa / rsa
 	add(kt[2], kt[0], quic) // secp256k1 / ed25519
 	return out
+}
+
+// c01Masks: XOR masks applied at every byte position. Thorough tier: every single-bit flip and the complement
+// for the TCP-path baselines whose two identities have the same key type; 0x01 and 0x80 everywhere else.
+func c01Masks(b c01Base) []byte {
+	if vrep.Thorough() && b.tc == b.ts && b.cc == (c01Cfg{"T", "match"}) && b.cs == (c01Cfg{"T", "empty"}) {
+		return []byte{0x01, 0x02, 0x04, 0x08, 0x10, 0x20, 0x40, 0x80, 0xff}
+	}
+	return []byte{0x01, 0x80}
 }
 
 // c01DryRun runs the unedited baseline until both {CertificateVerify} records have the canonical length,
@@ -264,7 +274,7 @@ func TestVerifC01TLSWire(t *testing.T) {
 	bases := c01WireBases()
 	a.r.Bounds["baselines"] = fmt.Sprintf("%d (quick: ed25519/ed25519 TCP path, ecdsa/rsa both sides naming the peer, secp256k1/ed25519 through crypto/tls+ConfigForPeer; thorough: all 16 key pairs on the TCP path plus 4 pairs each for the other two configurations)", len(bases))
 	a.r.Bounds["records"] = "each of the 5 records of the client flights and the 7 records of the server flight (see c01RecNames)"
-	a.r.Bounds["edits per record"] = "every byte position of the record (5-byte header included) XOR 0x01 and XOR 0x80; " + fmt.Sprint(c01wire.StructuralKinds) + "; swap with the same-index record of a second concurrent session between the same identities"
+	a.r.Bounds["edits per record"] = "every byte position of the record (5-byte header included) XOR 0x01 and XOR 0x80 (thorough: all 8 single-bit masks and 0xff for the 4 same-key-type TCP-path baselines); " + fmt.Sprint(c01wire.StructuralKinds) + "; swap with the same-index record of a second concurrent session between the same identities"
 	a.r.Bounds["edits per run"] = 1
 	shard, nshards := vrep.Shard()
 	for bi, b := range bases {
@@ -272,9 +282,10 @@ func TestVerifC01TLSWire(t *testing.T) {
 		var recs [2][]int
 		for dir := 0; dir < 2; dir++ {
 			for rec := range c01FlightTypes[dir] {
-				for grp := 0; grp < 3; grp++ { // 0: xor 0x01, 1: xor 0x80, 2: structural + swap
+				masks := c01Masks(b)
+				for grp := 0; grp <= len(masks); grp++ { // one group per XOR mask, the last one: structural + swap
 					// structural unit index: the partition over shards does not depend on anything measured
-					unit := ((bi*2+dir)*8+rec)*3 + grp
+					unit := ((bi*2+dir)*8+rec)*16 + grp
 					if !c01Mine(unit, shard, nshards) || dry == 2 {
 						continue
 					}
@@ -294,10 +305,10 @@ func TestVerifC01TLSWire(t *testing.T) {
 					}
 					canon := recs[dir][rec]
 					var edits []c01wire.Edit
-					switch grp {
-					case 0, 1:
+					switch {
+					case grp < len(masks):
 						for p := 0; p < canon; p++ {
-							edits = append(edits, c01wire.Edit{Kind: "xor", Pos: p, Mask: []byte{0x01, 0x80}[grp]})
+							edits = append(edits, c01wire.Edit{Kind: "xor", Pos: p, Mask: masks[grp]})
 						}
 					default:
 						for _, k := range c01wire.StructuralKinds {
